@@ -1,6 +1,8 @@
 import MoneroModel.Proofs.Group
 import MoneroModel.Proofs.GroupInstance
 import MoneroModel.Proofs.EdwardsLawful
+import MoneroModel.Proofs.EdwardsTorsion8
+import MoneroModel.Proofs.GroupRefine
 /-! C10 — "Key derivation is Monero's cofactor-cleared Diffie-Hellman for every curve point".
 About the model `Monero.derive` / `Monero.oneTimeKey` (Model/Crypto.lean: `KeyGenerator::{from_key, from_random, one_time_key,
 get_rvn_scalar}` at HEAD of /repo, i.e. after the fix commit) and the by-the-book sender `Spec.Sender`. Every theorem holds
@@ -89,6 +91,58 @@ theorem C10_scalar8_counterexample :
   · show Ed.l - 1 < Ed.l; unfold Ed.l; omega
   · rw [zmodOps_lawful.derive_eq]; exact zmod_counter
 
+/-! ### the two constructors as two functions; `KeyGenerator::check`
+
+`deriveSender` / `deriveReceiver` (Model/Crypto.lean) are written separately, one per Rust body (`from_random`, line 84;
+`from_key`, line 92); the driver evaluates `c10_derive_sender` with the first and `c10_derive` with the second.
+`keyGenCheck` is the model of `KeyGenerator::check` (byte equality of the compressed keys). -/
+
+/-- each constructor computes the cofactor-cleared Diffie-Hellman point 8•(scalar•point), for EVERY point -/
+theorem C10_constructors (L : Lawful ops) (r v : ℕ) (V R : P) :
+    deriveSender ops r V = 8 • (r • V) ∧ deriveReceiver ops v R = 8 • (v • R) ∧
+    deriveSender ops r V = Spec.Sender.derivation (specPrims ops) r V ∧
+    deriveReceiver ops v R = Spec.Sender.derivation (specPrims ops) v R ∧
+    deriveSender ops r V = derive ops r V ∧ deriveReceiver ops v R = derive ops v R :=
+  ⟨L.derive_eq r V, L.derive_eq v R, L.derive_eq_spec r V, L.derive_eq_spec v R, rfl, rfl⟩
+
+/-- clause (d) between the two functions: what `from_random(V = v•G, ·, r)` derives is what `from_key((v, ·), R = r•G)`
+derives (`PublicKey::from_private_key` on both sides), and likewise over any base point `B` (subaddresses: `B = S'`) -/
+theorem C10_sender_receiver_split (L : Lawful ops) (r v : ℕ) :
+    deriveSender ops r (pubOf ops v) = deriveReceiver ops v (pubOf ops r) ∧
+    ∀ B : P, deriveSender ops r (ops.smul v B) = deriveReceiver ops v (ops.smul r B) :=
+  C10_sender_receiver L r v
+
+/-- `KeyGenerator::check(index, key)` is true for exactly one key: the generator's own `one_time_key(index)` -/
+theorem C10_check_iff (L : Lawful ops) (D S : P) (n : ℕ) (key : P) :
+    keyGenCheck ops D S n key = true ↔ key = oneTimeKey ops D S n := by
+  unfold keyGenCheck
+  rw [beq_iff_eq]
+  exact ⟨fun h => L.enc_inj h, fun h => by rw [h]⟩
+
+/-- clause (e) with the check itself: the receiver's generator `from_key((v, d.spend), R)`, `R` the transaction key the
+by-the-book sender publishes, ACCEPTS (`check` = true) the key that sender wrote at position `n` — and nothing else -/
+theorem C10_check_accepts_sender_key (L : Lawful ops) (v r n : ℕ) (d : Spec.Sender.Dest P)
+    (hview : d.view = v • (if d.isSub then d.spend else ops.base)) :
+    keyGenCheck ops (deriveReceiver ops v (Spec.Sender.txKey (specPrims ops) r d)) d.spend n
+        (Spec.Sender.sendKey (specPrims ops) r d n) = true ∧
+    keyGenCheck ops (deriveReceiver ops v (Spec.Sender.txKey (specPrims ops) r d)) d.spend n
+        (oneTimeKey ops (deriveSender ops r d.view) d.spend n) = true ∧
+    ∀ key : P, keyGenCheck ops (deriveReceiver ops v (Spec.Sender.txKey (specPrims ops) r d)) d.spend n key = true →
+      key = Spec.Sender.sendKey (specPrims ops) r d n := by
+  have h := C10_onetime_recognised L v r n d hview
+  refine ⟨(C10_check_iff L _ _ _ _).2 h, ?_, fun key hk => ?_⟩
+  · exact (C10_check_iff L _ _ _ _).2 ((C10_sender_is_spec L r n d).trans h)
+  · rw [h]; exact (C10_check_iff L _ _ _ _).1 hk
+
+/-- `check` on a key moved by ANY non-zero point (e.g. a small-order point) is false -/
+theorem C10_check_rejects_shifted (L : Lawful ops) (D S T : P) (n : ℕ) (hT : T ≠ 0) :
+    keyGenCheck ops D S n (oneTimeKey ops D S n + T) = false := by
+  cases h : keyGenCheck ops D S n (oneTimeKey ops D S n + T) with
+  | false => rfl
+  | true =>
+    have := (C10_check_iff L _ _ _ _).1 h
+    exact absurd (add_eq_left.mp this) hT
+
 /-! ### Ed25519 itself: `Lawful` is a theorem, not an assumption
 
 `Proofs/EdwardsGroup.lean` proves that the affine twisted Edwards curve −x² + y² = 1 + d·x²·y² over GF(2^255 − 19) with the
@@ -122,5 +176,99 @@ theorem C10_view_tag_recognised_ed25519 : type_of% (@C10_view_tag_recognised EdP
   C10_view_tag_recognised edOps_lawful
 /-- non-vacuity: the instance has points outside the prime-order subgroup -/
 example : 4 • T4 = 0 ∧ 2 • T4 ≠ 0 ∧ Ed.l • T4 ≠ 0 := ⟨T4_order.1, T4_order.2, T4_not_l_torsion⟩
+
+theorem C10_sender_is_spec_ed25519 : type_of% (@C10_sender_is_spec EdPoint _ edOps edOps_lawful) :=
+  C10_sender_is_spec edOps_lawful
+theorem C10_onetime_recognised_primary_ed25519 : type_of% (@C10_onetime_recognised_primary EdPoint _ edOps edOps_lawful) :=
+  C10_onetime_recognised_primary edOps_lawful
+theorem C10_onetime_recognised_subaddress_ed25519 :
+    type_of% (@C10_onetime_recognised_subaddress EdPoint _ edOps edOps_lawful) :=
+  C10_onetime_recognised_subaddress edOps_lawful
+theorem C10_scalar8_agrees_on_torsion_free_ed25519 :
+    type_of% (@C10_scalar8_agrees_on_torsion_free EdPoint _ edOps edOps_lawful) :=
+  C10_scalar8_agrees_on_torsion_free edOps_lawful
+theorem C10_constructors_ed25519 : type_of% (@C10_constructors EdPoint _ edOps edOps_lawful) := C10_constructors edOps_lawful
+theorem C10_sender_receiver_split_ed25519 : type_of% (@C10_sender_receiver_split EdPoint _ edOps edOps_lawful) :=
+  C10_sender_receiver_split edOps_lawful
+theorem C10_check_iff_ed25519 : type_of% (@C10_check_iff EdPoint _ edOps edOps_lawful) := C10_check_iff edOps_lawful
+theorem C10_check_accepts_sender_key_ed25519 : type_of% (@C10_check_accepts_sender_key EdPoint _ edOps edOps_lawful) :=
+  C10_check_accepts_sender_key edOps_lawful
+theorem C10_check_rejects_shifted_ed25519 : type_of% (@C10_check_rejects_shifted EdPoint _ edOps edOps_lawful) :=
+  C10_check_rejects_shifted edOps_lawful
+
+/-- **the counterexample on Ed25519 itself** (clause f; `C10_scalar8_counterexample` shows it in the toy group Z/(8l) only):
+`T8`, the curve point with the encoding of dalek's `EIGHT_TORSION[1]`, is an ACCEPTED public key
+(`PublicKey::from_slice` returns it), has order exactly 8, and for the reduced scalar `a = l − 1` the formula of the pinned
+tree `(8·a mod l)•T8` (= 5•T8 ≠ 0) differs from Monero's `8•(a•T8)` (= 0) -/
+theorem C10_scalar8_counterexample_ed25519 :
+    edOps.dec t8bytes = some T8 ∧ Keys.publicAccept t8bytes = true ∧ 8 • T8 = 0 ∧ 4 • T8 ≠ 0 ∧ Ed.l - 1 < edOps.l ∧
+    derive edOps (Ed.l - 1) T8 = 0 ∧ derivePinned edOps (Ed.l - 1) T8 ≠ derive edOps (Ed.l - 1) T8 := by
+  have hd : derive edOps (Ed.l - 1) T8 = 0 := by
+    rw [edOps_lawful.derive_eq, smul_comm, T8_order.1, smul_zero]
+  refine ⟨edOps_dec_t8, (publicAccept_iff_dec t8bytes).2 ⟨T8, edOps_dec_t8⟩, T8_order.1, T8_order.2,
+    by rw [edOps_l]; decide, hd, ?_⟩
+  rw [hd]
+  have hk : (8 * (Ed.l - 1)) % edOps.l = Ed.l - 8 := by rw [edOps_l]; decide
+  show edOps.smul ((8 * (Ed.l - 1)) % edOps.l) T8 ≠ 0
+  rw [hk, edOps_smul]
+  exact T8_odd_smul_ne_zero _ (by decide)
+
+/-- the same with the point of order 4 whose encoding is 32 zero bytes -/
+theorem C10_scalar8_counterexample_ed25519_order4 :
+    edOps.dec (List.replicate 32 0) = some T4 ∧
+    derivePinned edOps (Ed.l - 1) T4 ≠ derive edOps (Ed.l - 1) T4 := by
+  refine ⟨edOps_dec_zeros, ?_⟩
+  have hd : derive edOps (Ed.l - 1) T4 = 0 := by
+    rw [edOps_lawful.derive_eq, smul_comm, show (8 : ℕ) = 2 * 4 from rfl, mul_smul, T4_order.1, smul_zero, smul_zero]
+  rw [hd]
+  have hk : (8 * (Ed.l - 1)) % edOps.l = 4 * ((Ed.l - 8) / 4) + 1 := by rw [edOps_l]; decide
+  show edOps.smul ((8 * (Ed.l - 1)) % edOps.l) T4 ≠ 0
+  rw [hk, edOps_smul, add_smul, mul_smul, smul_comm, T4_order.1, smul_zero, zero_add, one_smul]
+  intro h
+  exact T4_order.2 (by rw [h, smul_zero])
+
+/-- all eight small-order points are there: the multiples `k•T8`, `k < 8`, are pairwise distinct and killed by 8 — so
+"`B = B' + T` for any of the 8 small-order points" in `C10_derivation_torsion_ed25519` is instantiated by each of them -/
+theorem C10_eight_torsion_points_ed25519 :
+    (∀ k : ℕ, 8 • (k • T8) = 0) ∧ (∀ i j : ℕ, i < 8 → j < 8 → i • T8 = j • T8 → i = j) ∧
+    ∀ (a k : ℕ) (B' : EdPoint), derive edOps a (B' + k • T8) = derive edOps a B' := by
+  refine ⟨fun k => by rw [smul_comm, T8_order.1, smul_zero], fun i j hi hj h => ?_, fun a k B' => ?_⟩
+  · have := (nsmul_injOn_Iio_addOrderOf (x := T8))
+    rw [addOrderOf_T8] at this
+    exact this (Set.mem_Iio.2 hi) (Set.mem_Iio.2 hj) h
+  · exact (C10_derivation_torsion edOps_lawful a B' (k • T8) (by rw [smul_comm, T8_order.1, smul_zero])).1
+
+/-- **no subgroup check** (mechanism anchor key.rs:287-305): EVERY curve point — with or without a small-order component —
+has an encoding that `PublicKey::from_slice` accepts (the model of the library's acceptance test, Model/Keys.lean, proved equal
+to the strict reference decoder under C13) -/
+theorem C10_no_subgroup_check (B : EdPoint) : Keys.publicAccept (edOps.enc B) = true :=
+  (publicAccept_iff_dec _).2 ⟨B, edOps_lawful.dec_enc B⟩
+
+/-- **clause (a) from the bytes**: for every 32-byte string `b` that `PublicKey::from_slice` accepts (canonically encoded
+point, no subgroup condition) there is the curve point `B` it encodes, and the derivation from `(a, B)` is `8•(a•B)`;
+moreover the executable instance that the differential run evaluates (`Drv.refOps`) decodes `b` to a representative of `B` and,
+for every 32-byte scalar `a`, prints exactly the encoding of that group element -/
+theorem C10_derivation_bytes (a : ℕ) (b : Bytes) (h : Keys.publicAccept b = true) :
+    ∃ B : EdPoint, edOps.dec b = some B ∧ edOps.enc B = b ∧
+      deriveReceiver edOps a B = 8 • (a • B) ∧ deriveSender edOps a B = 8 • (a • B) ∧
+      ∃ Braw : Ed.Pt, Drv.refOps.dec b = some Braw ∧
+        (a < 2 ^ 260 → Drv.refOps.enc (deriveReceiver Drv.refOps a Braw) = edOps.enc (8 • (a • B)) ∧
+                       Drv.refOps.enc (deriveSender Drv.refOps a Braw) = edOps.enc (8 • (a • B))) := by
+  obtain ⟨Braw, hv, h1, h2, h3⟩ := accepted_key b h
+  refine ⟨toPoint Braw hv, h2, h3, edOps_lawful.derive_eq a _, edOps_lawful.derive_eq a _, Braw, h1, fun ha => ?_⟩
+  have := refines_enc_derive refOps_refines_edOps a ha Braw hv
+  rw [edOps_lawful.derive_eq] at this
+  exact ⟨this, this⟩
+
+/-- the hypothesis of `C10_derivation_bytes` holds also for a key with a small-order component -/
+example : Keys.publicAccept t8bytes = true := C10_scalar8_counterexample_ed25519.2.1
+
+/-- **the driver's one-time keys are the theorems' one-time keys**: on valid representatives and 32-byte scalars, what
+`Drv.refOps` prints for `c10_onetime` / `c10_onetime_recv` is the encoding of `oneTimeKey edOps (derive edOps a B) S n` -/
+theorem C10_driver_refines (a : ℕ) (ha : a < 2 ^ 260) (B S : Ed.Pt) (hB : Valid B) (hS : Valid S) (n : ℕ) :
+    Drv.refOps.enc (derive Drv.refOps a B) = edOps.enc (derive edOps a (toPoint B hB)) ∧
+    Drv.refOps.enc (oneTimeKey Drv.refOps (derive Drv.refOps a B) S n)
+      = edOps.enc (oneTimeKey edOps (derive edOps a (toPoint B hB)) (toPoint S hS) n) :=
+  ⟨refines_enc_derive refOps_refines_edOps a ha B hB, refines_enc_oneTimeKey_derive refOps_refines_edOps a ha B S hB hS n⟩
 end Ed25519
 end C10
